@@ -96,6 +96,26 @@ class Gen:
         if k == "RESET":
             W += ["reset", "q", ";"]
             return ("Reset", ("id", "q"))
+        if k == "DECL":
+            w, v = self.marker()
+            nm = f"t{self.nm}"
+            W += ["int", nm, "=", w, ";"]
+            return ("Decl", nm, v)
+        if k == "GPHASE":
+            w, v = self.marker()
+            W += ["gphase", "(", w, ")", ";"]
+            return ("GPhase", v)
+        if k == "DELAY":
+            w, v = self.marker()
+            W += ["delay", "[", w, "ns", "]", "q", ",", "r", "[", "2", "]", ";"]
+            return ("Delay", v, [("id", "q"), ("idx", "r", 2)])
+        if k == "HWRESET":
+            W += ["reset", "$0", ";"]
+            return ("HwReset",)
+        if k == "IO":
+            nm = f"io{self.nm}"; self.nm += 1
+            W += [it[1], "int", nm, ";"]
+            return ("IO", it[1], nm)
         if k == "IF":
             _, tform, tbody, eform, ebody = it
             w, v = self.marker()
@@ -319,6 +339,43 @@ class H(semh.Base):
             if s.v != "Reset":
                 raise bad()
             self.operand(R, s[0]["gate_operand"], e[1], f"`{self.label()}`: {where}")
+        elif k == "Decl":
+            if s.v != "DeclareClassical":
+                raise bad()
+            if self.ident_name(R, s[0]["name"]) != e[1]:
+                raise Violation(f"`{self.label()}`: {where}: declaration names {s[0]['name']!r}, the source declares `{e[1]}`")
+            if s[0]["initializer"] is None:
+                raise Violation(f"`{self.label()}`: {where}: the initializer is missing in the graph")
+            self.val(ex, s[0]["initializer"], e[2], where + " initializer")
+        elif k == "GPhase":
+            if s.v != "GPhaseCall":
+                raise bad()
+            self.val(ex, s[0]["arg"], e[1], where + " gphase argument")
+        elif k == "Delay":
+            if s.v != "Delay":
+                raise bad()
+            d = s[0]["duration"]["expression"]
+            if d.v != "Literal" or d[0].v != "TimingIntLiteral":
+                raise Violation(f"`{self.label()}`: {where}: delay duration is {d.v}")
+            ex.prove(semh_w(d[0][0]["value"]) == e[1], f"`{self.label()}`: {where}: the delay duration in the graph is not the one written")
+            if d[0][0]["time_unit"].v != "NanoSecond":
+                raise Violation(f"`{self.label()}`: {where}: delay unit {d[0][0]['time_unit'].v}")
+            if len(s[0]["qubits"]) != len(e[2]):
+                raise Violation(f"`{self.label()}`: {where}: delay with {len(s[0]['qubits'])} operands in the graph")
+            for j, (o, w) in enumerate(zip(s[0]["qubits"], e[2])):
+                self.operand(R, o, w, f"`{self.label()}`: {where} operand {j}")
+        elif k == "HwReset":
+            if s.v != "Reset":
+                raise bad()
+            o = s[0]["gate_operand"]["expression"]
+            if o.v != "GateOperand" or o[0].v != "HardwareQubit":
+                raise Violation(f"`{self.label()}`: {where}: reset operand is {o!r}, the source has a hardware qubit")
+        elif k == "IO":
+            want = "InputDeclaration" if e[1] == "input" else "OutputDeclaration"
+            if s.v != want:
+                raise bad()
+            if self.ident_name(R, s[0]["name"]) != e[2]:
+                raise Violation(f"`{self.label()}`: {where}: {e[1]} declaration names {s[0]['name']!r}")
         elif k == "If":
             if s.v != "If":
                 raise bad()
@@ -516,7 +573,9 @@ def build_tasks(quick):
                 continue
             add(f"nest2:{a_}-{b_}", [M, mk(a_, [mk(b_, [M])]), M])
     # statement order at top level and kinds
-    leaves = [M, ("GC",), ("CALL",), ("BAR",), ("MEAS",), ("RESET",), ("BR",), ("CO",), ("END",)]
+    leaves = [M, ("GC",), ("CALL",), ("BAR",), ("MEAS",), ("RESET",), ("BR",), ("CO",), ("END",), ("DECL",), ("GPHASE",), ("DELAY",), ("HWRESET",), ("IO", "input"), ("IO", "output")]
+    add("block:all-leaves", [("WH", "block", leaves), M])
+    add("gate:leaves", [("GATE", "h", [("GC",), ("GPHASE",), ("MOD", ("inv",)), ("BAR",), ("DELAY",)]), M])
     for i, x in enumerate(leaves):
         for j, y in enumerate(leaves):
             if quick and (i + j) % 3:
